@@ -6,6 +6,7 @@
    implementation run); a miss yields NaN. *)
 From Coq Require Import ZArith List Bool.
 From Coq Require Import Uint63 PrimFloat SpecFloat FloatOps.
+From Coq Require String Ascii.
 From PyLib Require Import PyVal.
 Import ListNotations.
 Open Scope Z_scope.
@@ -188,9 +189,135 @@ Fixpoint libm_lookup (t : libm_table) (fn : libm_fn) (args : list float) : float
       if libm_fn_eqb fn fn' && args_eqb args args' then r else libm_lookup t' fn args
   end.
 
-(* repr(float): placeholder until the shortest-round-trip algorithm is supplied
-   (C04); it is only reached by Angle.dms_str / ra_str *)
-Definition b64_repr (x : float) : String.string := String.EmptyString.
+Import String Ascii.
+
+(* repr(float), CPython float_repr_style 'short': David Gay's dtoa mode 0
+   (shortest digit string that reads back to x; generated digit by digit with
+   the low/high termination tests of dtoa.c, in exact integer arithmetic),
+   then format_float_short's 'r' layout. *)
+
+(* m*2^e >= 10^d ?   (m > 0) *)
+Definition repr_ge_pow10 (m e d : Z) : bool :=
+  Z.shiftl (10 ^ (Z.max d 0)) (Z.max (- e) 0) <=? Z.shiftl m (Z.max e 0) * 10 ^ (Z.max (- d) 0).
+
+(* floor(log10(m*2^e)), m > 0 *)
+Definition repr_dec_exp (m e : Z) : Z :=
+  let lb := Z.log2 m + e in
+  let d0 := (lb * 30103) / 100000 in
+  if repr_ge_pow10 m e (d0 + 1) then d0 + 1
+  else if repr_ge_pow10 m e d0 then d0 else d0 - 1.
+
+(* R < 10*S: quotient (0..9) and remainder by repeated subtraction *)
+Fixpoint repr_small_quot (fuel : nat) (R S q : Z) : Z * Z :=
+  match fuel with
+  | O => (q, R)
+  | Datatypes.S f => if S <=? R then repr_small_quot f (R - S) S (q + 1) else (q, R)
+  end.
+
+(* dtoa's termination test after a digit: D = digits so far, r the remainder,
+   S one unit of the last digit, mlo/mhi the half gaps to the neighbouring
+   doubles (same scale).  Some D' = stop with digits D' (before the trailing-9
+   carry clean-up); None = generate another digit. *)
+Definition repr_test (ev : bool) (S r mlo mhi D dig : Z) : option Z :=
+  let j := r ?= mlo in
+  let j1 := (r + mhi) ?= S in
+  match j1, ev with
+  | Eq, true => if dig =? 9 then Some (D + 1) else
+                match j with Gt => Some (D + 1) | _ => Some D end
+  | _, _ =>
+    if (match j with Lt => true | Eq => ev | Gt => false end) then
+      if r =? 0 then Some D else
+      match j1 with
+      | Gt => match (2 * r ?= S) with
+              | Gt => Some (D + 1)
+              | Eq => if Z.odd dig then Some (D + 1) else Some D
+              | Lt => Some D
+              end
+      | _ => Some D
+      end
+    else match j1 with Gt => Some (D + 1) | _ => None end
+  end.
+
+(* R/S = fraction not yet printed, in units of the last printed digit *)
+Fixpoint repr_loop (fuel : nat) (ev : bool) (S R mlo mhi D n : Z) : Z * Z :=
+  match fuel with
+  | O => (D, n)
+  | Datatypes.S f =>
+      let mlo := 10 * mlo in
+      let mhi := 10 * mhi in
+      let (dig, r) := repr_small_quot 10 (10 * R) S 0 in
+      let D := 10 * D + dig in
+      match repr_test ev S r mlo mhi D dig with
+      | Some D' => (D', n + 1)
+      | None => repr_loop f ev S r mlo mhi D (n + 1)
+      end
+  end.
+
+(* digits of m*2^e (m > 0) with 10^(dp-1) <= m*2^e < 10^dp: (D, n), D nominally
+   n digits long (10^n after a carry) *)
+Definition repr_digits (m e dp : Z) : Z * Z :=
+  let pe := Z.max e 0 in let ne := Z.max (- e) 0 in
+  let t := 10 ^ (Z.max (- dp) 0) in
+  let S := Z.shiftl (4 * 10 ^ (Z.max dp 0)) ne in
+  let R := Z.shiftl (4 * m) pe * t in
+  let mhi := Z.shiftl 2 pe * t in
+  let mlo := if (m =? 4503599627370496) && (-1074 <? e) then Z.shiftl 1 pe * t else mhi in
+  repr_loop 40 (Z.even m) S R mlo mhi 0 0.
+
+Fixpoint repr_strip_zeros (fuel : nat) (D : Z) : Z :=
+  match fuel with
+  | O => D
+  | S fuel' => if (D mod 10 =? 0) && (0 <? D) then repr_strip_zeros fuel' (D / 10) else D
+  end.
+
+Fixpoint repr_zeros (n : nat) : String.string :=
+  match n with O => String.EmptyString | S n' => String.String "0"%char (repr_zeros n') end.
+
+Fixpoint repr_split_at (n : nat) (s : String.string) : String.string * String.string :=
+  match n, s with
+  | S n', String.String c r => let (a, b) := repr_split_at n' r in (String.String c a, b)
+  | _, _ => (String.EmptyString, s)
+  end.
+
+(* digit string ds (no trailing repr_zeros), decimal point position decpt:
+   value = 0.ds * 10^decpt *)
+Definition repr_layout (ds : String.string) (decpt : Z) : String.string :=
+  let nd := Z.of_nat (String.length ds) in
+  if (decpt <=? -4) || (16 <? decpt) then
+    let ex := decpt - 1 in
+    let mant := match ds with
+                | String.String c String.EmptyString => ds
+                | String.String c r => String.String c (String.String "."%char r)
+                | String.EmptyString => ds
+                end in
+    let ea := Z.abs ex in
+    let es := Z_to_string ea in
+    let es := if ea <? 10 then String.String "0"%char es else es in
+    String.append mant (String.String "e"%char (String.String (if ex <? 0 then "-"%char else "+"%char) es))
+  else if decpt <=? 0 then
+    String.append "0."%string (String.append (repr_zeros (Z.to_nat (- decpt))) ds)
+  else if nd <=? decpt then
+    String.append ds (String.append (repr_zeros (Z.to_nat (decpt - nd))) ".0"%string)
+  else
+    let (a, b) := repr_split_at (Z.to_nat decpt) ds in
+    String.append a (String.String "."%char b).
+
+Definition b64_repr (x : float) : String.string :=
+  match Prim2SF x with
+  | S754_nan => "nan"%string
+  | S754_infinity s => if s then "-inf"%string else "inf"%string
+  | S754_zero s => if s then "-0.0"%string else "0.0"%string
+  | S754_finite s pm e =>
+      let m := Z.pos pm in
+      let dp := repr_dec_exp m e + 1 in
+      let (D, n) := repr_digits m e dp in
+      (* D nominally has n digits (or is 10^n after a carry) *)
+      let ds0 := Z_to_string D in
+      let decpt := dp - n + Z.of_nat (String.length ds0) in
+      let ds := Z_to_string (repr_strip_zeros 40 D) in
+      let body := repr_layout ds decpt in
+      if s then String.String "-"%char body else body
+  end.
 
 Definition B64opsC (t : libm_table) (call : val float -> list (val float) -> val float)
   : FloatOps float := {|
